@@ -112,6 +112,13 @@ pub trait Prop: 'static {
     /// itself is replayed); the generated and replay tiers run with `strict = false`.
     fn check(case: &Self::Case, strict: bool) -> Outcome;
     fn assumptions() -> Vec<String>;
+    /// libFuzzer target (harness/fuzz) whose oracle is this property's `check`, run in the
+    /// thorough tier; `fuzz_decode` is the byte -> case decoder shared with the target
+    const FUZZ_TARGET: Option<&'static str> = None;
+    const FUZZ_RUNS: u64 = 0;
+    fn fuzz_decode(_bytes: &[u8]) -> Option<Self::Case> {
+        None
+    }
     /// one-time self test of models/generators (harness bug if it fails)
     fn self_test() -> Result<(), String> {
         Ok(())
@@ -212,8 +219,41 @@ pub fn catch<R>(f: impl FnOnce() -> R) -> Result<R, String> {
 }
 
 pub fn internal_error(msg: &str) -> ! {
+    FINISHED.store(true, Ordering::SeqCst);
     eprintln!("INTERNAL-ERROR: {msg}");
     std::process::exit(EXIT_INTERNAL)
+}
+
+// ---------------------------------------------------------------------------------------
+// a foreign panic hook (Pipe::new installs one that calls process::exit(1)) can end the process in
+// the middle of a case: an atexit handler records which case it was
+
+static FINISHED: AtomicBool = AtomicBool::new(false);
+static DIED_FILE: Mutex<Option<PathBuf>> = Mutex::new(None);
+static REPLAY_ID: Mutex<Option<(String, String)>> = Mutex::new(None);
+
+extern "C" fn on_exit() {
+    if FINISHED.load(Ordering::SeqCst) {
+        return;
+    }
+    let case = CURRENT_CASE.try_lock().ok().and_then(|c| c.clone()).unwrap_or_else(|| "null".into());
+    if let Ok(g) = DIED_FILE.try_lock() {
+        if let Some(p) = g.as_ref() {
+            let _ = std::fs::write(p, &case);
+        }
+    }
+    if let Ok(g) = REPLAY_ID.try_lock() {
+        if let Some((id, file)) = g.as_ref() {
+            println!("FAIL: the process was terminated while this case was being checked (a panic reached the exit-on-panic hook installed by Pipe::new)");
+            println!("VIOLATION property={id} replay={file}");
+        }
+    }
+}
+
+fn register_exit_handler() {
+    unsafe {
+        libc::atexit(on_exit);
+    }
 }
 
 // ---------------------------------------------------------------------------------------
@@ -247,7 +287,16 @@ fn start_watchdog(hang_secs: u64, hang_file: PathBuf) {
                         .ok()
                         .and_then(|c| c.clone())
                         .unwrap_or_else(|| "null".into());
-                    let _ = std::fs::write(&hang_file, case);
+                    let panics: Vec<String> = panics_since(0)
+                        .into_iter()
+                        .filter(|p| p.in_repo && !p.in_harness_loc)
+                        .map(|p| format!("{} at {} (thread {})", p.msg, p.loc, p.thread))
+                        .collect();
+                    let body = format!(
+                        "{{\"case\": {case}, \"panics\": {}}}",
+                        serde_json::to_string(&panics).unwrap_or_else(|_| "[]".into())
+                    );
+                    let _ = std::fs::write(&hang_file, body);
                     eprintln!("[watchdog] no progress for {hang_secs}s, giving up on this case");
                     std::process::exit(EXIT_HANG);
                 }
@@ -466,6 +515,7 @@ fn shard_seed(seed: u64, id: &str, shard: u32) -> [u8; 32] {
 }
 
 fn write_result(path: &Path, res: &ShardResult) {
+    FINISHED.store(true, Ordering::SeqCst);
     let js = serde_json::to_vec(res).expect("serialize shard result");
     std::fs::write(path, js).expect("write shard result");
     // hashes of distinct non-trivial cases, for the parent's union
@@ -479,6 +529,8 @@ fn write_result(path: &Path, res: &ShardResult) {
 
 pub fn run_shard<P: Prop>(args: ShardArgs) -> i32 {
     install_panic_hook();
+    *DIED_FILE.lock().unwrap() = Some(args.out.with_extension("died"));
+    register_exit_handler();
     start_watchdog(P::HANG_SECS, args.out.with_extension("hang"));
     let start = Instant::now();
     let mut res = ShardResult::default();
@@ -563,6 +615,7 @@ pub fn run_shard<P: Prop>(args: ShardArgs) -> i32 {
             cases: remaining,
             failure_persistence: None,
             max_shrink_iters: 4096,
+            max_shrink_time: 120_000,
             max_global_rejects: 1_000_000,
             max_local_rejects: 1_000_000,
             ..Config::default()
@@ -652,6 +705,8 @@ pub fn run_shard<P: Prop>(args: ShardArgs) -> i32 {
 /// confirm hangs).
 pub fn replay_one<P: Prop>(file: &Path) -> i32 {
     install_panic_hook();
+    *REPLAY_ID.lock().unwrap() = Some((P::ID.to_string(), file.display().to_string()));
+    register_exit_handler();
     QUIET.store(false, Ordering::Relaxed);
     start_watchdog(P::HANG_SECS, PathBuf::from("/dev/null"));
     let txt = std::fs::read_to_string(file).unwrap_or_else(|e| internal_error(&format!("{e}")));
@@ -661,6 +716,7 @@ pub fn replay_one<P: Prop>(file: &Path) -> i32 {
     let case: P::Case = serde_json::from_value(cj)
         .unwrap_or_else(|e| internal_error(&format!("replay file does not parse: {e}")));
     let out = run_case::<P>(&case, std::env::var("TUV_STRICT").is_ok());
+    FINISHED.store(true, Ordering::SeqCst);
     println!("case: {case:?}");
     println!("labels: {:?} nontrivial: {}", out.labels, out.nontrivial);
     match out.fail {
@@ -687,3 +743,45 @@ pub fn idx16(i: u16, n: usize) -> usize {
 pub fn boxed<S: Strategy + 'static>(s: S) -> BoxedStrategy<S::Value> {
     s.boxed()
 }
+
+// ---------------------------------------------------------------------------------------
+// registry entry
+
+pub struct PropMeta {
+    pub id: &'static str,
+    pub rule: &'static str,
+    pub claims_termination: bool,
+    pub essential: &'static [&'static str],
+    pub hang_secs: u64,
+    pub budget: fn(Tier) -> Budget,
+    pub assumptions: fn() -> Vec<String>,
+    pub run_shard: fn(ShardArgs) -> i32,
+    pub fuzz_target: Option<&'static str>,
+    pub fuzz_runs: u64,
+    pub fuzz_decode: fn(&[u8]) -> Option<serde_json::Value>,
+    pub check_json: fn(&serde_json::Value) -> Result<Option<String>, String>,
+    pub replay_one: fn(&Path) -> i32,
+}
+
+pub fn meta<P: Prop>() -> PropMeta {
+    PropMeta {
+        id: P::ID,
+        rule: P::RULE,
+        claims_termination: P::CLAIMS_TERMINATION,
+        essential: P::ESSENTIAL,
+        hang_secs: P::HANG_SECS,
+        budget: P::budget,
+        assumptions: P::assumptions,
+        run_shard: run_shard::<P>,
+        fuzz_target: P::FUZZ_TARGET,
+        fuzz_runs: P::FUZZ_RUNS,
+        fuzz_decode: |b| P::fuzz_decode(b).and_then(|c| serde_json::to_value(&c).ok()),
+        check_json: |v| {
+            let c: P::Case = serde_json::from_value(v.clone()).map_err(|e| e.to_string())?;
+            install_panic_hook();
+            Ok(run_case::<P>(&c, false).fail)
+        },
+        replay_one: replay_one::<P>,
+    }
+}
+
